@@ -750,8 +750,9 @@ pub fn explore(
     on_exec: &mut dyn FnMut(&Outcome) -> bool,
 ) -> ExploreStats {
     let mut st = ExploreStats::default();
-    let mut stack: Vec<(Vec<usize>, Vec<u64>)> = vec![(Vec::new(), Vec::new())];
-    while let Some((prefix, expect)) = stack.pop() {
+    let debug = std::env::var("VSCHED_DEBUG").is_ok();
+    let mut stack: Vec<(Vec<usize>, Vec<u64>, Vec<String>)> = vec![(Vec::new(), Vec::new(), Vec::new())];
+    while let Some((prefix, expect, parent)) = stack.pop() {
         if st.executions >= max_execs {
             st.exec_cap_hit = true;
             break;
@@ -759,6 +760,9 @@ pub fn explore(
         let threads = mk();
         let out = run(&prefix, &expect, threads, policy, 20_000);
         if let Some(d) = &out.diverged {
+            if debug {
+                eprintln!("prefix {prefix:?}\nparent:\n  {}\nreplay:\n  {}", parent.join("\n  "), out.render_schedule().join("\n  "));
+            }
             machinery_failure(d);
         }
         if out.capped {
@@ -778,7 +782,8 @@ pub fn explore(
             .iter()
             .filter(|p| p.kind == PointKind::Sched && p.running_enabled && p.chosen != 0)
             .count();
-        let mut children: Vec<(Vec<usize>, Vec<u64>)> = Vec::new();
+        let mut children: Vec<(Vec<usize>, Vec<u64>, Vec<String>)> = Vec::new();
+        let rendered = if debug { out.render_schedule() } else { Vec::new() };
         for i in prefix.len()..out.points.len() {
             let p = &out.points[i];
             let step = if p.kind == PointKind::Sched && p.running_enabled { 1 } else { 0 };
@@ -786,7 +791,7 @@ pub fn explore(
                 for alt in 1..p.enabled.len() {
                     let mut np: Vec<usize> = out.points[..i].iter().map(|q| q.chosen).collect();
                     np.push(alt);
-                    children.push((np, fps[..=i].to_vec()));
+                    children.push((np, fps[..=i].to_vec(), rendered.clone()));
                 }
             }
             // the default continuation took choice 0 here: never a preemption
